@@ -196,6 +196,36 @@ func vecCase(alu string, v vop, r *vh.Rng, mode int) Case {
 			val[k][l] = x
 		}
 	}
+	// lanes that tell a fused multiply-add from multiply-then-add: inexact products a*b with c = -RN(a*b)
+	fusedLane := func(l int) bool { return grid && v.flt > 0 && (v.nsrc == 3 || v.macc) && l%4 == 1 }
+	for l := 0; l < 64; l++ {
+		if fusedLane(l) {
+			val[0][l] = uint64(0x3f800001 + uint32(l)*0x10101)
+			val[1][l] = uint64(0x3f800003 + uint32(l)*0x20203)
+			if l%8 == 5 {
+				val[1][l] |= 0x80000000
+			}
+			if v.nsrc == 3 {
+				p := math.Float32frombits(uint32(val[0][l])) * math.Float32frombits(uint32(val[1][l]))
+				val[2][l] = uint64(math.Float32bits(-p))
+			}
+		}
+	}
+	gridK := uint32(0)
+	if grid && v.flt == 2 { // v_madmk / v_madak (v_fmamk / v_fmaak): K is lane invariant
+		f := math.Float32frombits
+		for l := 1; l < 64; l += 4 {
+			if v.op == 23 { // D = S0 * K + S1
+				gridK = 0x3f800003
+				a := 0x3f800001 + uint32(l)*0x10101
+				val[0][l] = uint64(a)
+				val[1][l] = uint64(math.Float32bits(-(f(a) * f(gridK))))
+			} else { // D = S0 * S1 + K
+				val[0][l], val[1][l] = 0x3f800001, 0x3f800003
+				gridK = math.Float32bits(-(f(0x3f800001) * f(0x3f800003)))
+			}
+		}
+	}
 	if v.flt > 0 && v.nsrc == 3 && !grid {
 		for l := 0; l < 64; l += 2 {
 			p := math.Float32frombits(uint32(val[0][l])) * math.Float32frombits(uint32(val[1][l]))
@@ -355,11 +385,14 @@ func vecCase(alu string, v vop, r *vh.Rng, mode int) Case {
 	}
 	if v.flt == 2 {
 		lit = []uint32{fltVal(r)}
+		if gridK != 0 {
+			lit = []uint32{gridK}
+		}
 	}
 	if v.macc && v.dw > 0 {
 		for l := 0; l < 64; l++ { // the accumulator: vdst before the instruction
 			x := fltVal(r)
-			if !grid && l%2 == 0 {
+			if (!grid && l%2 == 0) || fusedLane(l) {
 				p := math.Float32frombits(uint32(val[0][l])) * math.Float32frombits(uint32(val[1][l]))
 				x = math.Float32bits(-p)
 			}
